@@ -14,7 +14,7 @@ COQ_IMPORTS = ("From Synnax Require Import Common.Base Cesium.Store Cesium.Index
                "Cesium.UnaryIter Cesium.UnaryWrite Cesium.Read Monitors.Mon_C10.")
 COQ_EXTRA = "Local Open Scope Z_scope."
 CASE_TYPE = "case_t"
-COUNTS = {"quick": 1500, "thorough": 20000}
+COUNTS = {"quick": 2500, "thorough": 20000}
 SHARD = 70
 OPS_KEY = "ops"
 RULE = ("layouts written through the real cesium writer: 1-3 index channels x 0-3 data channels (int64/uint8/float32/"
